@@ -35,7 +35,7 @@ class C02(Check):
     reference_models = ["ref/refext4.py: independent ext2/3/4 reader and consistency checker (no libext2fs code)"]
 
     def budget(self, tier):
-        return {"runs": 2500, "wall_s": 90} if tier == "quick" else {"runs": 60000, "wall_s": 1500}
+        return {"runs": 2500, "wall_s": 90} if tier == "quick" else {"runs": 30000, "wall_s": 1500}
 
     def generate(self, rng, tier):
         kind = rng.weighted([("faults", 14), ("crashed_writer", 4), ("journal+faults", 1)])
